@@ -162,7 +162,9 @@ func (s *scripted) Get(url string) (map[string][]string, []byte, error) {
 		case 2:
 			ferr = &neturl.Error{Op: "Get", URL: url, Err: context.DeadlineExceeded}
 		}
-		return map[string][]string{"X-Failed": {strconv.Itoa(n)}}, []byte("failed-" + strconv.Itoa(n)), ferr
+		// … nor steer the retry loop: a failed attempt's headers (here: a server's Retry-After hint far above any configured
+		// delay, spelled the way servers and net/http spell it) are not a reason to wait longer than MaxRetryDelay
+		return map[string][]string{"X-Failed": {strconv.Itoa(n)}, "Retry-After": {"3600"}, "retry-after": {"7200"}}, []byte("failed-" + strconv.Itoa(n)), ferr
 	}
 	rec.hdr, rec.body = makeResp(n)
 	h, b := makeResp(n)
@@ -305,8 +307,25 @@ func oracle(c config, res *result, slack time.Duration) string {
 		// "returns the first successful response … for all k up to the number of attempts the timeout allows": giving up is for
 		// when the timeout has run out.  An error returned so early that even the longest permitted wait would have ended before
 		// the timeout, while the next response of the wrapped getter is a success, withholds that success.
-		if n := len(res.calls); res.err != nil && n > 0 && c.max >= 0 && c.entry(n).ok && res.retAt+c.max+slack < c.to {
-			reasons = append(reasons, fmt.Sprintf("gave up early: error returned at %v after %d failed attempt(s) although the timeout is %v, a wait is at most MaxRetryDelay = %v, and attempt %d succeeds — the first successful response is not returned for k = %d failures, which the timeout allows", res.retAt, n, c.to, c.max, n+1, n))
+		if n := len(res.calls); res.err != nil && n > 0 && c.max >= 0 {
+			// walk the script from where the getter stopped, charging every wait at its maximum: a success whose attempt would
+			// still have started before the timeout was withheld
+			t := res.retAt
+			for j := n; j < n+64; j++ {
+				t += c.max
+				if t+slack >= c.to {
+					break
+				}
+				if c.entry(j).ok {
+					reasons = append(reasons, fmt.Sprintf("gave up early: error returned at %v after %d failed attempt(s) although the timeout is %v, a wait is at most MaxRetryDelay = %v, and attempt %d — which even at the longest permitted waits starts at %v, before the timeout — succeeds: the first successful response is not returned for k = %d failures, which the timeout allows", res.retAt, n, c.to, c.max, j+1, t, j))
+					break
+				}
+				t += c.entry(j).dur
+			}
+		}
+		// the time between the end of the last failed attempt and giving up is a wait like any other
+		if n := len(res.calls); res.err != nil && n > 0 && c.max >= 0 && res.retAt-res.calls[n-1].end > c.max+slack {
+			reasons = append(reasons, fmt.Sprintf("wait above MaxRetryDelay: after the last failed attempt (ended at %v) the getter sat for %v before giving up at %v; a wait is at most %v", res.calls[n-1].end, res.retAt-res.calls[n-1].end, res.retAt, c.max))
 		}
 		bound := max(c.to, 0) + c.maxDur() + max(c.max, 0) + slack
 		if res.retAt > bound {
@@ -314,6 +333,17 @@ func oracle(c config, res *result, slack time.Duration) string {
 		}
 	}
 	deadline := max(c.to, 0)
+	// the timeout runs from the call: with a positive retry delay no attempt STARTS after it has run out (an attempt in flight
+	// at that moment may finish) — a deadline counted from anywhere later (the first failure, the last success) lets the getter
+	// go on for longer than "roughly the timeout plus one retry delay" when attempts take time.  (Delays <= 0: finding F13.)
+	if c.max > 0 {
+		for i, cl := range res.calls {
+			if i > 0 && cl.start > deadline+slack {
+				reasons = append(reasons, fmt.Sprintf("attempt %d started at %v, after the timeout (%v from the call) had run out", i+1, cl.start, c.to))
+				break
+			}
+		}
+	}
 	for i, w := range res.waits() {
 		if c.max >= 0 && w > c.max+slack {
 			reasons = append(reasons, fmt.Sprintf("wait %d above MaxRetryDelay: %v > %v", i, w, c.max))
